@@ -167,17 +167,29 @@ def gen_model(rng, features=None):
                      kind=rng.choice(['str', 'userstring', 'yatimlstring']))
             if rng.random() < 0.3:
                 c['init_raises'] = ('', 'forbidden')
+            if rng.random() < 0.25:
+                # a string-like class that rewrites its own scalar (a new node object) or refuses it
+                c['savorize'] = [rng.choice([('replace', 'x'), ('replace', 'canon'), ('replace', 1),
+                                             ('fail',), ('other',)])]
             if features and 'sweeten' in features and rng.random() < 0.3:
                 c['sweeten'] = [('set_value_upper',)] if False else []
         elif r < 0.5 and plain:
             # a subclass
             base = rng.choice(plain)
             bases = [base]
-            if rng.random() < 0.15:
+            if rng.random() < (0.6 if features and 'mixins' in features else 0.15):
                 mix = dict(name='Mix' + name, bases=[], registered=False, kind='plain', params=[],
                            all_params=[], define_init=False)
                 if rng.random() < 0.5:
                     mix['savorize'] = [('set', 'mixed_in', 1)]
+                if features and 'mixins' in features:
+                    # dump side: a mix-in that is itself registered and has its own hook, or none
+                    mix['registered'] = rng.random() < 0.4
+                    if rng.random() < 0.5:
+                        mix['sweeten'] = [('set', 'mixed_in', 1)]
+                    if features and 'sweeten' in features and 'sweeten' not in by_name[base] \
+                            and rng.random() < 0.7:
+                        by_name[base]['sweeten'] = gen_sweeten(rng, by_name[base])
                 spec.append(mix)
                 by_name[mix['name']] = mix
                 bases = rng.choice([[base, mix['name']], [mix['name'], base]])
@@ -398,7 +410,8 @@ def gen_any(rng, depth=2):
 TAGS = ['!Alpha', '!Beta', '!Gamma', '!Unknown', '!!python/object:os.system',
         '!!python/object/apply:os.system', '!!python/name:os.system', '!!str', '!!int', '!!float',
         '!!bool', '!!null', '!!seq', '!!map', '!!binary', '!!set', '!!omap', '!!timestamp', '!!merge',
-        '!!value', '!Path', '!!pairs', '!Unrelated', '!Celsius']
+        '!!value', '!Path', '!!pairs', '!Unrelated', '!Celsius', '!<tag:example.org,2020:Alpha>',
+        '!<x-private:Beta>']
 
 
 def paths(doc, prefix=()):
